@@ -146,6 +146,12 @@ def check_gmm(g, X, K, cov_type, what):
                                 f"[{lo.tolist()}, {hi.tolist()}]", sig={"kind": "mean-outside-box"})
 
 
+def exotic_dtype(X, seed):
+    """the data rounded to a narrower floating dtype (values exactly representable there, scale unchanged - an integer dtype would
+    need a rescaling that moves unit-scale data into the regime of finding K6)"""
+    return X.astype(np.float32), "float32"
+
+
 def alt_repr(X, sw, seed):
     """the same data in another legitimate representation"""
     k = seed % 3
@@ -184,6 +190,13 @@ def exec_gmm(case):
         if a.shape != b_.shape or not np.allclose(a, b_, rtol=1e-9, atol=1e-12, equal_nan=True):
             raise Violation(f"GaussianMixture: a model object that was fitted to other data before gives a different {name} for the same "
                             f"data, weights and seed than a fresh object (state carried between fits)", sig={"kind": "state-carried-over"})
+    if case["seed"] % 4 == 0 and case["geometry"] != "scaled":
+        # input of a narrower dtype: the fit must treat it as the numbers it holds (no arithmetic in the input's own dtype)
+        Xe, how_e = exotic_dtype(X, case["seed"] // 4)
+        ge = GaussianMixture(n_components=K, covariance_type=case["cov"], n_init=case["n_init"], random_state=case["rs"])
+        np.random.seed(case["seed"] % 2**31)
+        lib_call(ge.fit, Xe, sample_weight=sw.copy(), what=f"GaussianMixture.fit({how_e} input)")
+        check_gmm(ge, Xe.astype(np.float64), K, case["cov"], f"GaussianMixture.fit({how_e} input)")
     lab = np.asarray(lib_call(g.predict, X.copy(), what="GaussianMixture.predict"))
     if lab.shape != (len(X),) or lab.min() < 0 or lab.max() >= K:
         raise Violation(f"GaussianMixture.predict labels outside [0,{K})", sig={"kind": "predict-range"})
